@@ -21,7 +21,7 @@ def replay(args, outdir):
         pysam.faidx(p)
         fa = pysam.FastaFile(p)
         H.FakeFasta = lambda contigs: fa
-        fn = {'L1_blocks_cigar': H._l1_blocks, 'L2_pseudo_reads': H._l2_pseudo_reads, 'L3_call_structure': H._l3_call, 'L4_md_roundtrip': H._l4_md}[lemma]
+        fn = {'L1_blocks_cigar': H._l1_blocks, 'L2_pseudo_reads': H._l2_pseudo_reads, 'L3_call_structure': H._l3_call, 'L3b_call_order_independent': H._l3b_call_order, 'L4_md_roundtrip': H._l4_md}[lemma]
         try:
             ok = fn(**a)
         except Exception as e:
